@@ -104,8 +104,8 @@ PROPS = {
         "technique": T_R3 + " with interprocedural radix-range summaries; const-evaluated static tables read from the compiler; MIR argument-provenance tables",
     },
     "C07": {
-        "clauses": [guards("shift"), fam("Shl", "Shr", "BitAnd", "BitOr", "BitXor"), r5check.check_helpers, r5check.check_shifts],
-        "not_decided": "running two's-complement carries, intra-digit shifts, bit queries; bit-operator sign tables",
+        "clauses": [guards("shift"), fam("Shl", "Shr", "BitAnd", "BitOr", "BitXor"), r5check.check_helpers, r5check.check_shifts, r5check.check_bitops],
+        "not_decided": "running two's-complement carries, intra-digit shifts, bit queries",
         "level_text": "Decides: the negative-shift panic precedes everything else in biguint_shl/biguint_shr in release builds (comparison against T::zero() on the shift "
         "amount); every shift/bit operator form is a verified forwarder or a reviewed implementation.",
         "technique": T_R3 + "; " + T_R2,
